@@ -95,7 +95,7 @@ def judge(res, results, status_table=None):
             res.fail('malformed-response', c.line[:300], full[:160].hex(), None, f'C05: emitted bytes are not a well-formed response: {why}')
             continue
         parsable = K.request_is_parsable(c.raw)
-        meth = (c.method if c.kind != 'mutated' else c.raw.split(b' ', 1)[0].decode('latin1').strip()) if parsable else 'GET'
+        meth = (c.method if c.kind != 'mutated' else c.raw.split(b'\n', 1)[0].decode('utf-8', 'replace').strip(K.RUST_WS).split(' ', 1)[0]) if parsable else 'GET'
         for b in H.check_framing(resp, meth):
             res.fail('framing:' + b, c.line[:300], full[:200].hex(), None, f'C05: {b} (method {meth})')
         for n, v in resp['headers']:
